@@ -122,3 +122,35 @@ Theorem stale_fade_task_refuted :
   exists evs, fold_left (cstep_orig 0 125) evs (None, None, None) = (None, Some (255 * SC), Some 77).
 Proof. exact stale_fade_task_refuted_l. Qed.
 Print Assumptions stale_fade_task_refuted.
+
+(* brightness correction (gamma_correct, factor f4/4 from the "brightness" machine variable):
+   full brightness is the identity *)
+Theorem brightness_full_is_identity : forall c, gam 4 c = c.
+Proof. exact gam_full. Qed.
+Print Assumptions brightness_full_is_identity.
+
+(* correction is monotone: a corrected fade stays between its corrected endpoints *)
+Theorem corrected_fade_between_endpoints :
+  forall f4 a x b, 0 <= f4 -> between a x b -> between (gam f4 a) (gam f4 x) (gam f4 b).
+Proof. exact gam_between_l. Qed.
+Print Assumptions corrected_fade_between_endpoints.
+
+(* and never brighter than the logical colour *)
+Theorem corrected_not_brighter :
+  forall f4 r g b, 0 <= f4 <= 4 -> 0 <= r -> 0 <= g -> 0 <= b ->
+    let '(r', g', b') := gam f4 (r, g, b) in 0 <= r' <= r /\ 0 <= g' <= g /\ 0 <= b' <= b.
+Proof. exact gam_bounded_l. Qed.
+Print Assumptions corrected_not_brighter.
+
+(* at rest, the corrected target of the last command is the corrected logical colour — for the
+   factor that was in effect when that command was sent (run_ops applies [corr_T] to every
+   command).  hw_equals_logical_at_rest_partial: the full statement "for the CURRENT factor" is
+   false of the code: a brightness change is not propagated to lights that do not change colour
+   (known finding brightness-change-not-propagated, reproduced by the check). *)
+Theorem hw_corrected_at_rest_partial :
+  forall h now f4, timed_ok 0 h -> last_time 0 h <= now ->
+    let l := lrun linit h in
+    rest (stack l) now = true ->
+    gam f4 (hw_target l) = gam f4 (col (stack l) now).
+Proof. exact hw_corrected_at_rest_l. Qed.
+Print Assumptions hw_corrected_at_rest_partial.
